@@ -553,6 +553,8 @@ def histories(draw):
             "vdelay": draw(st.sampled_from([0.0, 0.0, 0.3])), "chunked": draw(st.sampled_from([0, 0, 1, 2]))}
 
 
+from props.ble_layers import C08_BLE_LAYERS as _BLE08  # noqa: E402
+
 SPEC = Property(
     P, "exploration",
     rule=("histories over {caller i issues a read with a unique id, accessory answers the oldest pending request whole / in pieces / with an "
@@ -569,6 +571,7 @@ SPEC = Property(
                     "then every sequence over 10 events to depth 3 (quick) / 4 (thorough)", min_nontrivial=100),
         Layer("two-pairings", run_two, enumerate=enum_two, exhaustive=True,
               space="two pairings in one process, B with a request outstanding and its response half delivered, while A's connection sees one of 9 disturbances; both creation orders", min_nontrivial=10),
+        *_BLE08,
         Layer("pipelined-protocol", run_pipelined, strategy=pipelined_cases, n={"quick": 1000, "thorough": 20000}),
     ],
     assumptions=["event-loop-callback granularity on a zero-latency in-memory network",
